@@ -37,7 +37,7 @@ from typing import Dict, List, Sequence
 from . import pyexpr, pyloops
 from .common import Unsupported
 from .pyexpr import BOOL, INT, RAT, VAL, Binding, Ex, Param, TranslatorBug, lean_ident, src
-from .pyloops import (AParam, ArrayInfo, LEAN_TYPE, OK, LoopKernel, MapKernelTranslator, TIf, TLet, TLoop, TMerge, TYield)
+from .pyloops import (AParam, Arr, ArrayInfo, LEAN_TYPE, OK, LoopKernel, MapKernelTranslator, TIf, TLet, TLoop, TMerge, TYield)
 
 NEW_OPS = {"band", "bor", "trunc"}
 
@@ -1033,3 +1033,177 @@ class CopyKernelTranslator(VecKernelTranslator):
 
 def translate_copy_kernel(fn, lean_name, params, numpy_names=("np",), source_text=None, consts=None, callees=()) -> LoopKernel:
     return CopyKernelTranslator(fn, lean_name, params, numpy_names, source_text, consts, callees).translate()
+
+
+# ------------------------------------------------------------------------------------------------
+# independent reading: pyloops' imperative interpreter of the AST, extended to the constructs above.  It shares nothing
+# with the translation (no IR, no per-pixel decomposition): the WHOLE function is run statement by statement on mutable
+# arrays, as Python does.  Arrays of any rank are `pyloops.Arr` (cells: int | bool | Fraction | "nan").
+# ------------------------------------------------------------------------------------------------
+class EmptyArgmax(Exception):
+    """numpy raises ValueError on the argmax of an empty array"""
+
+
+def _flat(x):
+    return [z for y in x for z in _flat(y)] if isinstance(x, list) else [x]
+
+
+def _shape_of(x):
+    return (len(x),) + _shape_of(x[0]) if isinstance(x, list) and x else ((0,) if isinstance(x, list) else ())
+
+
+def _mk(data, integer=False):
+    a = Arr(data, _shape_of(data))
+    a.integer = integer
+    return a
+
+
+def _map(x, f):
+    return [_map(y, f) for y in x] if isinstance(x, list) else f(x)
+
+
+class InterpExt(pyloops.Interp):
+    def __init__(self, numpy_names=("np",), consts=None, functions=None):
+        super().__init__(numpy_names)
+        self.consts = dict(consts or {})
+        self.functions = dict(functions or {})  # python name -> ast.FunctionDef of a callable kernel
+
+    # ---- scalars
+    def binop(self, op, a, b):
+        if isinstance(op, (ast.BitAnd, ast.BitOr)):
+            if isinstance(a, pyloops.Arr) or isinstance(b, pyloops.Arr):
+                arr, other = (a, b) if isinstance(a, pyloops.Arr) else (b, a)
+                return _mk(_map(arr.data, lambda x: self.binop(op, x, other)), integer=getattr(arr, "integer", False))
+            if isinstance(a, bool) and isinstance(b, bool):
+                return (a and b) if isinstance(op, ast.BitAnd) else (a or b)
+            if isinstance(a, int) and isinstance(b, int) and a >= 0 and b >= 0:
+                return (a & b) if isinstance(op, ast.BitAnd) else (a | b)
+            raise Unsupported("interpreter: `&` / `|` on something that is not two bools or two non-negative ints")
+        return super().binop(op, a, b)
+
+    # ---- subscripts with slices / partial indices
+    def subscript(self, arr, parts):
+        data, integer = arr.data, getattr(arr, "integer", False)
+
+        def rec(x, shape, parts):
+            if not parts:
+                return x
+            n, p = shape[0], parts[0]
+            if isinstance(p, tuple):  # ("slice", lo, hi, step)
+                _, lo, hi, step = p
+                idx = range(n)[slice(lo, hi, step)]
+                return [rec(x[i], shape[1:], parts[1:]) for i in idx]
+            i = pyloops.wrap(n, p)
+            if not 0 <= i < n:
+                raise pyloops.OutOfBounds("index outside the array")
+            return rec(x[i], shape[1:], parts[1:])
+
+        out = rec(data, arr.shape, parts)
+        return _mk(out, integer) if isinstance(out, list) else out
+
+    def index_parts(self, sl, env):
+        out = []
+        for p in (sl.elts if isinstance(sl, ast.Tuple) else [sl]):
+            if isinstance(p, ast.Slice):
+                out.append(("slice",) + tuple(None if x is None else self.ex(x, env) for x in (p.lower, p.upper, p.step)))
+            else:
+                v = self.ex(p, env)
+                if not (isinstance(v, int) and not isinstance(v, bool)):
+                    raise Unsupported("interpreter: non-integer index")
+                out.append(v)
+        return out
+
+    def ex(self, node, env):  # noqa: C901
+        if isinstance(node, ast.Attribute) and src(node) in self.consts:
+            return self.consts[src(node)]
+        if isinstance(node, ast.Subscript):
+            base = self.ex(node.value, env) if not isinstance(node.value, ast.Name) else env[node.value.id]
+            if not isinstance(base, pyloops.Arr):
+                raise Unsupported("interpreter: subscript of a non-array")
+            return self.subscript(base, self.index_parts(node.slice, env))
+        if isinstance(node, ast.Name) and node.id in env:
+            return env[node.id]
+        if isinstance(node, ast.List):
+            return [self.ex(e, env) for e in node.elts]
+        if isinstance(node, ast.Compare) and len(node.ops) == 1:
+            left = self.ex(node.left, env)
+            if isinstance(left, pyloops.Arr):
+                right = self.ex(node.comparators[0], env)
+                name = {ast.Eq: "eq", ast.NotEq: "ne", ast.Lt: "lt", ast.LtE: "le", ast.Gt: "gt", ast.GtE: "ge"}[type(node.ops[0])]
+                return _mk(_map(left.data, lambda x: pyloops.f_cmp(name, self.num(x), self.num(right))))
+        if isinstance(node, ast.Call):
+            f = node.func
+            if isinstance(f, ast.Name) and f.id in self.functions and f.id not in env:
+                return self.call(self.functions[f.id], [self.ex(a, env) for a in node.args])
+            if isinstance(f, ast.Name) and f.id == "int" and len(node.args) == 1:
+                v = self.ex(node.args[0], env)
+                if isinstance(v, int):
+                    return int(v)
+                if pyloops.is_special(v):
+                    raise Unsupported("interpreter: int() of NaN / infinity")
+                q = Fraction(v)
+                n = abs(q.numerator) // q.denominator
+                return n if q >= 0 else -n
+            if isinstance(f, ast.Attribute) and isinstance(f.value, ast.Name) and f.value.id == "math" and f.attr == "floor":
+                v = self.ex(node.args[0], env)
+                if isinstance(v, int) and not isinstance(v, bool):
+                    return v
+                raise Unsupported("interpreter: math.floor of a non-integer")
+            if isinstance(f, ast.Attribute) and f.attr == "any" and not node.args:
+                return any(bool(x) for x in _flat(self.ex(f.value, env).data))
+            if isinstance(f, ast.Attribute) and isinstance(f.value, ast.Name) and f.value.id in self.np:
+                return self.np_call(f.attr, node, env)
+        return super().ex(node, env)
+
+    def np_call(self, name, node, env):  # noqa: C901
+        args = [self.ex(a, env) for a in node.args]
+        dtype = next((k.value.attr for k in node.keywords if k.arg == "dtype" and isinstance(k.value, ast.Attribute)), None)
+        if name == "copy":
+            return _mk(_map(args[0].data, lambda x: x), getattr(args[0], "integer", False))
+        if name == "array":
+            integer = all(isinstance(x, int) for x in _flat(args[0]))
+            return _mk(_map(args[0], lambda x: x if integer else Fraction(x)), integer)
+        if name in ("zeros", "full"):
+            shape = args[0] if isinstance(args[0], tuple) else (args[0],)
+            integer = dtype in pyloops.INT_DTYPES
+            fill = (0 if integer else Fraction(0)) if name == "zeros" else args[1]
+
+            def mk(sh):
+                return [mk(sh[1:]) for _ in range(sh[0])] if len(sh) > 1 else [fill] * sh[0]
+            a = Arr(mk(list(shape)), shape)
+            a.integer = integer
+            return a
+        if name in ("isfinite", "isnan", "abs") and isinstance(args[0], pyloops.Arr):
+            f = {"isfinite": lambda x: not pyloops.is_special(x), "isnan": lambda x: x == pyloops.FNAN,
+                 "abs": lambda x: abs(x) if isinstance(x, int) else pyloops.f_abs(x)}[name]
+            return _mk(_map(args[0].data, f), name == "abs" and getattr(args[0], "integer", False))
+        if name == "sum":
+            cells = _flat(args[0].data)
+            if any(pyloops.is_special(x) or isinstance(x, Fraction) for x in cells):
+                raise Unsupported("interpreter: np.sum of floats")
+            return sum(int(x) for x in cells)
+        if name == "argmax":
+            cells = _flat(args[0].data)
+            if not cells:
+                raise EmptyArgmax()
+            if not all(isinstance(x, bool) for x in cells):
+                raise Unsupported("interpreter: np.argmax of a non-boolean array")
+            return cells.index(True) if True in cells else 0
+        if name == "argsort":
+            cells = args[0].data
+            order = sorted(range(len(cells)), key=lambda i: (cells[i] == pyloops.FNAN, 0 if cells[i] == pyloops.FNAN else cells[i]))
+            return _mk(order, True)
+        if name == "nanmedian":
+            xs = sorted(x for x in _flat(args[0].data) if x != pyloops.FNAN)
+            n = len(xs)
+            if n == 0:
+                return pyloops.FNAN
+            return Fraction(xs[n // 2]) if n % 2 else (Fraction(xs[n // 2 - 1]) + Fraction(xs[n // 2])) / 2
+        node2 = node
+        return super().ex(node2, env)
+
+
+def interpret_ext(fn: ast.FunctionDef, args, numpy_names=("np",), consts=None, functions=None):
+    """the whole function on `Arr` / scalar arguments (run imperatively, exactly) -> what it returns (an `Arr` or a tuple
+    of `Arr`s); raises pyloops.OutOfBounds on a read or store outside an array, EmptyArgmax on np.argmax of an empty mask"""
+    return InterpExt(numpy_names, consts, functions).call(fn, list(args))
